@@ -53,7 +53,7 @@ def c10():
         return len(set(labs)) == len(labs) and any(cur.get(l) != v for l, v in last["batch"])
     exported = [x for x in exported if x[2] and effective_last(x[2])]
     rnd = random.Random(chk.seed)
-    n = 160 if chk.tier == "quick" else 1500
+    n = 160 if chk.tier == "quick" else 600
     sample = rnd.sample(exported, min(n, len(exported)))
     cells = [dict(props_dir.DEFAULT_CELL, cache=c, par=p) for (c, p) in [("none", "disabled"), ("default", "disabled"), ("none", "s2"), ("default", "s4")]]
     bs = []
@@ -180,22 +180,22 @@ def c12():
         seq = [pidmap[x] for x in sc for _ in range(mult)]
         add(prefix, [{"pid": 1, "kind": "publish", "batch": b1}, {"pid": 2, "kind": "publish", "batch": b2}], seq + TAIL, ["none", "default"][i % 2])
     # (ii) bounded preemption: A runs i operations, B runs j, A finishes, B finishes (and mirrored)
-    rng_i = range(0, 15) if chk.tier == "quick" else range(0, 30)
+    rng_i = range(0, 15) if chk.tier == "quick" else range(0, 22)
     for si, (prefix, b1, b2) in enumerate(PUB_SCENARIOS):
         for i in rng_i:
-            for j in (range(0, 15, 2) if chk.tier == "quick" else range(0, 30)):
+            for j in (range(0, 15, 2) if chk.tier == "quick" else range(0, 22)):
                 for (first, second) in ((1, 2), (2, 1)):
                     if chk.tier == "quick" and (i + j + si) % 3 != 0:
                         continue
                     add(prefix, [{"pid": 1, "kind": "publish", "batch": b1}, {"pid": 2, "kind": "publish", "batch": b2}],
                         [first] * i + [second] * j + [first] * 80 + [second] * 80, ["none", "default"][(i + j) % 2])
     # (iii) three publishers, seeded random schedules
-    for k in range(150 if chk.tier == "quick" else 3000):
+    for k in range(150 if chk.tier == "quick" else 1500):
         seq = [rnd.choice([1, 2, 3]) for _ in range(rnd.randint(5, 60))]
         add([[["a", "x"]]], [{"pid": 1, "kind": "publish", "batch": [["a", "y"]]}, {"pid": 2, "kind": "publish", "batch": [["b", "x"]]},
                               {"pid": 3, "kind": "publish", "batch": [["a", "y"], ["b", "y"]]}], seq + TAIL, ["none", "default"][k % 2])
     # (iv) truly parallel runs on a multi-thread runtime (gate open): 2-4 publishers racing
-    for k in range(120 if chk.tier == "quick" else 2000):
+    for k in range(120 if chk.tier == "quick" else 600):
         npub = 2 + k % 3
         batches = [[["a", "y"]], [["b", "x"]], [["a", "y"], ["b", "y"]], [["b", "y"]]][:npub]
         add([[["a", "x"]]], [{"pid": i + 1, "kind": "publish", "batch": bt} for i, bt in enumerate(batches)], [], ["none", "default"][k % 2])
